@@ -5,7 +5,8 @@ CFG = {
     "check_vo": "theories/Check/C16.vo", "prop_vo": "theories/Properties/C16.vo",
     "prop_file": "theories/Properties/C16.v",
     "theory_files": ["theories/Trees/Octree.v", "theories/Trees/Bvh.v", "theories/Trees/OctreeProofs.v",
-                     "theories/Trees/BvhProofs.v", "theories/Trees/ElemProofs.v", "theories/Trees/CheckProofs.v"],
+                     "theories/Trees/BvhProofs.v", "theories/Trees/ElemProofs.v", "theories/Trees/CheckProofs.v",
+                     "theories/Trees/TriProofs.v", "theories/Trees/MeshProofs.v"],
     "level_text": "Coq theorems about an executable model of trees/octree.go (newOctree, the five queries) and of "
                   "rendering/bvh.go (BVHNode.Hit) / hit.go (HitList.Hit): for every element list, every maximum depth and "
                   "every query the tree built by the model satisfies the containment invariant, and every tree satisfying "
